@@ -39,6 +39,32 @@ def take_log():
 
 
 # ----------------------------------------------------------------------------- Lean driver
+_limit_lock = __import__("threading").Lock()
+_limit_users = [0, None]
+
+
+def dumps_deep(req):
+    """json.dumps of a request whose tree may be nested more deeply than the C encoder's fixed recursion budget allows (a 400-term `a + 1 + 1 …` is 400
+    levels, three JSON levels each).  Fallback: the pure-Python encoder under a raised interpreter limit — raised only while serialising, never while the
+    real code runs."""
+    try:
+        return json.dumps(req, ensure_ascii=True)
+    except RecursionError:
+        pass
+    with _limit_lock:
+        if _limit_users[0] == 0:
+            _limit_users[1] = sys.getrecursionlimit()
+            sys.setrecursionlimit(200000)
+        _limit_users[0] += 1
+    try:
+        return "".join(json.JSONEncoder(ensure_ascii=True).iterencode(req))
+    finally:
+        with _limit_lock:
+            _limit_users[0] -= 1
+            if _limit_users[0] == 0:
+                sys.setrecursionlimit(_limit_users[1])
+
+
 class Driver:
     def __init__(self):
         if not os.path.exists(DRIVER):
@@ -47,11 +73,11 @@ class Driver:
         self.n = 0
 
     def ask(self, req):
-        self.p.stdin.write(json.dumps(req, ensure_ascii=True) + "\n")
+        self.p.stdin.write(dumps_deep(req) + "\n")
         self.p.stdin.flush()
         line = self.p.stdout.readline()
         if not line:
-            raise RuntimeError("driver died on request: " + json.dumps(req)[:500])
+            raise RuntimeError("driver died on request: " + dumps_deep(req)[:500])
         self.n += 1
         return json.loads(line)
 
@@ -91,17 +117,27 @@ class Driver:
 
     def _ask_many_one(self, reqs):
         import threading
+        werr = []
+
         def w():
-            for r in reqs:
-                self.p.stdin.write(json.dumps(r, ensure_ascii=True) + "\n")
-            self.p.stdin.flush()
+            try:
+                for r in reqs:
+                    self.p.stdin.write(dumps_deep(r) + "\n")
+                self.p.stdin.flush()
+            except BaseException as e:      # noqa: never leave the reader waiting for answers that will not come
+                werr.append(e)
+                try:
+                    self.p.stdin.close()
+                except Exception:
+                    pass
         t = threading.Thread(target=w)
         t.start()
         out = []
         for _ in reqs:
             line = self.p.stdout.readline()
             if not line:
-                raise RuntimeError("driver died")
+                t.join()
+                raise RuntimeError("driver died" + (" (request could not be written: %r)" % werr[0] if werr else ""))
             out.append(json.loads(line))
         t.join()
         self.n += len(reqs)
